@@ -82,6 +82,10 @@ package client
 // ContextID{arr,off,len,cap}, Metadata{arr,off,len,cap}, Provider)
 //@   loop 2: iteration ensures c.pcache == nil ==> itercount("send:resChan") <= 1
 //@   loop 2: iteration ensures c.pcache == nil && itercount("send:resChan") == 1 ==> iterarg("send:resChan", 7) != 0 && iterarg("send:resChan", 5) == sliceArr(md0) && iterarg("send:resChan", 7) == len(md0) && iterarg("send:resChan", 1) == sliceArr(ctx0)
+// ... and the provider of that value key, in an AddrInfo of its own (results already handed to the consumer
+// are never touched again)
+//@   at send resChan: assert c.pcache == nil ==> v.Provider != nil && str(v.Provider.ID) == pid0 && len(v.Provider.Addrs) == 0
+//@   loop 2: iteration ensures c.pcache == nil && itercount("send:resChan") == 1 ==> iterfresh(iterarg("send:resChan", 9))
 //@   loop 1: invariant c != nil && dhapiOK(c.dhstoreAPI) && ctx != nil && !closed(resChan) && (c.pcache != nil ==> pcOK(c.pcache) && !held(c.pcache.writeLock))
 //@   loop 2: invariant c != nil && dhapiOK(c.dhstoreAPI) && ctx != nil && !closed(resChan) && (c.pcache != nil ==> pcOK(c.pcache) && !held(c.pcache.writeLock))
 //@   loop 3: invariant c != nil && dhapiOK(c.dhstoreAPI) && ctx != nil && !closed(resChan) && (c.pcache != nil ==> pcOK(c.pcache) && !held(c.pcache.writeLock))
